@@ -138,9 +138,11 @@ def _construct_flag_flipped_twin(rule_path, input_path, binary, macros):
         for flag in ("mnemonics-full-match", "operands-full-match"):
             cfg[flag] = not bool(cfg.get(flag))
         twin = {"config": cfg, **{k: v for k, v in doc.items() if k != "config"}}
-        twin_path = rule_path + ".twin.yaml"
-        with open(twin_path, "w", encoding="utf-8") as f:
+        # (a path of this process's own: shards that share a directory of rule files never read each other's half-written twin)
+        twin_path = "%s.twin.%d.yaml" % (rule_path, os.getpid())
+        with open(twin_path + ".tmp", "w", encoding="utf-8") as f:
             yaml.safe_dump(twin, f, sort_keys=False)
+        os.replace(twin_path + ".tmp", twin_path)
         MasterOfPuppets(MatchConfig(pattern_pathstr=twin_path, input_file=input_path, input_file_type=InputFileType.binary if binary else InputFileType.assembly,
                                     return_only_address=False, return_mode=RM["list"], matching_mode=SM["all"], macros=macros))
     except (Exception, AssertionError):  # noqa: BLE001 - a twin that cannot be built is no twin
